@@ -187,13 +187,17 @@ LoadStatus DepsLog::Load(const string& path, State* state, string* err) {
 
   long offset = ftell(f);
   bool read_failed = false;
+  bool torn_header = false;
   int unique_dep_record_count = 0;
   int total_dep_record_count = 0;
   for (;;) {
     unsigned size;
-    if (fread(&size, sizeof(size), 1, f) < 1) {
+    size_t size_bytes_read = fread(&size, 1, sizeof(size), f);
+    if (size_bytes_read < sizeof(size)) {
       if (!feof(f))
         read_failed = true;
+      else if (size_bytes_read != 0)
+        torn_header = true;
       break;
     }
     bool is_deps = (size >> 31) != 0;
@@ -290,6 +294,14 @@ LoadStatus DepsLog::Load(const string& path, State* state, string* err) {
   }
 
   fclose(f);
+
+  if (torn_header) {
+    // The file ends in a partially written record header.  Cut it off so
+    // that the records appended next do not land behind the stray bytes
+    // (they would be unreadable, and dropped, on the following load).
+    if (!Truncate(path, offset, err))
+      return LOAD_ERROR;
+  }
 
   // Rebuild the log if there are too many dead records.
   int kMinCompactionEntryCount = 1000;
